@@ -2089,6 +2089,13 @@ def run_client(case) -> CaseResult:
                 if kind == 'eof' and c['op'] != 'fread':
                     kind = 'ok'
 
+                if kind == 'ok' and c['rtype'] == NAME and \
+                        act.get('code', 0) % 4 == 1:
+                    # a NAME reply is well typed for this request, but its
+                    # count is not the one name the request asks for
+                    kind = 'names0' if act.get('code', 0) % 8 == 1 \
+                        else 'names2'
+
                 if kind == 'okstatus' and c['rtype'] is None:
                     kind = 'ok'
 
@@ -2105,6 +2112,13 @@ def run_client(case) -> CaseResult:
                     wire.append(W.frame(rtype, u32(c['id']) +
                                         reply_body(v, rtype, tag)))
                     c['state'] = 'value'
+                elif kind in ('names0', 'names2'):
+                    one = W.enc_name(v, b'/r%d' % tag, b'long /r%d' % tag,
+                                     {'size': tag})
+                    n = 0 if kind == 'names0' else 2
+                    wire.append(W.frame(NAME, u32(c['id']) + u32(n) +
+                                        one * n))
+                    c['state'] = 'badmsg'
                 elif kind == 'eof':
                     wire.append(W.frame(STATUS, u32(c['id']) +
                                         W.status_body(W.FX_EOF, 'E%d' % j,
@@ -2370,6 +2384,7 @@ FAMILIES = [
            required={'all': ['v3', 'v4', 'v5', 'v6', 'k>=2', 'k>=5',
                              'reordered', 'coalesced-replies', 'act:ok',
                              'act:err', 'act:eof', 'act:wrong',
+                             'act:names0', 'act:names2',
                              'act:okstatus', 'act:unknown', 'act:dup',
                              'act:noid', 'act:cancel',
                              'reply-after-cancel',
